@@ -686,6 +686,7 @@ func Generate(prop, tier string, seed uint64) []GenCase {
 		out = genCtl("S-wf", seed, 400*scale, []string{"code", "wf"})
 		out = append(out, genOpt("S-wf-opt", seed+2, 100*scale)...)
 		out = append(out, genFn("S-wf-fn", seed+3, 100*scale)...)
+		out = append(out, genWfShapes("S-wf-shapes", seed+4)...)
 	case "C10":
 		out = genBuiltinCalls("S-builtin", seed, 6*scale)
 		out = append(out, genPrograms("S-prog", seed+1, 100*scale, 5, nil)...)
